@@ -19,6 +19,18 @@ def compile_ir(h, work):
            '-fsanitize-trap=all', '-fno-threadsafe-statics', '-Wno-everything', '-S', '-emit-llvm', os.path.join(VERIF, 'harness', h['src']), '-o', base + '.0.ll'] + defs
     r = sh(cmd)
     if r.returncode != 0: raise RuntimeError('clang failed for %s:\n%s' % (h['name'], r.stderr[-3000:]))
+    extra = []
+    for i, src in enumerate(h.get('ir_srcs', [])):
+        o = base + '.x%d.ll' % i
+        c2 = cmd[:cmd.index('-emit-llvm') + 1] + [os.path.join(REPO, 'src', src), '-o', o] + defs
+        r = sh(c2)
+        if r.returncode != 0: raise RuntimeError('clang failed for %s:\n%s' % (src, r.stderr[-3000:]))
+        extra.append(o)
+    if extra:
+        r = sh(['llvm-link-14', '-S', base + '.0.ll'] + extra + ['-o', base + '.l.ll'])
+        if r.returncode != 0: raise RuntimeError('llvm-link failed for %s:\n%s' % (h['name'], r.stderr[-3000:]))
+        os.replace(base + '.l.ll', base + '.0.ll')
+        for o in extra: os.unlink(o)
     r = sh(['opt-14', '-S', '-passes=sroa,simplifycfg', '-phi-node-folding-threshold=4', base + '.0.ll', '-o', base + '.ll'])
     if r.returncode != 0: raise RuntimeError('opt failed for %s:\n%s' % (h['name'], r.stderr[-2000:]))
     os.unlink(base + '.0.ll')
